@@ -108,22 +108,26 @@ def make_case(seq, traces, cid):
         else:
             cmds.append(['try', ['evalstr', '111', '(loaded-traces)']])
             expect.append('ok [ ]')
-    return {'id': cid, 'cmds': cmds, 'expect': expect, 'seq': list(seq), 'skip': len(traces) + 1, 'nontrivial': multi}
+        # the usable set is the loaded set: names qualified with an id that is not (or no longer) loaded must fail
+        for t in ('a', 'b', 'c'):
+            for nm in (f'{t}^top.a', f'{t}^INDEX'):
+                if t in loaded:
+                    continue
+                cmds.append(['try', ['evalstr', '111', nm]])
+                expect.append('err')
+    return {'id': cid, 'cmds': cmds, 'expect': expect, 'seq': list(seq), 'skip': len(traces) + 1, 'nontrivial': multi,
+            'per_op': None}
 
 
 def oracle(case, impl):
     res = (impl.get('results') or [])[case['skip']:]
-    k = 0
-    for op in case['seq']:
-        for what in ('operation', 'query'):
-            if k >= len(res):
-                return f'session stopped after {case["seq"][:case["seq"].index(op) + 1]}: {res[-1:]}'
-            g, e = res[k], case['expect'][k]
-            ok = g.startswith('err') if e == 'err' else lib.canon(g) == lib.canon(e)
-            if not ok:
-                upto = case['seq'][:case['seq'].index(op) + 1] if what == 'operation' else case['seq']
-                return f'{what} after {upto}: got {g[:300]} expected {e[:300]}'
-            k += 1
+    cmds = case['cmds'][case['skip']:]
+    if len(res) < len(case['expect']):
+        return f'session stopped early ({len(res)} of {len(case["expect"])} results) for {case["seq"]}: {res[-1:]}'
+    for k, (g, e) in enumerate(zip(res, case['expect'])):
+        ok = g.startswith('err') if e == 'err' else lib.canon(g) == lib.canon(e)
+        if not ok:
+            return f'after operations {case["seq"]}, command {cmds[k][1][2][:200]!r}: got {g[:300]} expected {e[:300]}'
     return None
 
 
